@@ -7,10 +7,12 @@ NOTE = "Trusted: Coq 8.16.1 kernel (no axioms: Print Assumptions closed), the ha
 CLAIMED = {
  'C01': dict(text="Coq theorems for every store, scope depth, signature shape and argument split: the overlay loop computes the longest-prefix rule, non-prefix scopes never apply, positionally supplied names are dropped, and what Python's own binding hands to the function is the caller's value / the applicable binding / the default (C01_injection). Model tied to /repo by differential runs of generated Gin-machine programs and an independent longest-prefix predicate evaluated on what the real probes received.",
    note=NOTE + " inspect.getfullargspec / functools.wraps are not modelled.", design="5/C01"),
- 'C02': dict(category='translation_validation', text="Executable Gallina model of the recursive-descent value parser over the real tokenizer's token stream, compared with the implementation on generated literal texts in random layouts and on near-miss texts; independent oracle ast.literal_eval on the whole text. The completeness theorem (every tree of the literal grammar in every layout parses to Python's value) is being proved (coq/Model/ParserSpec.v); until it is in Props/C02.v the level claimed is model-vs-code agreement.",
-   note=NOTE + " CPython's tokenizer and ast.literal_eval on one atom are not modelled (observed / oracle table).", design="5/C02"),
- 'C03': dict(category='translation_validation', text="Executable Gallina model of the statement parser (bindings, macro form, blocks, four import forms, includes, selector adjacency re-check) compared with the implementation on generated statement lists rendered in two independent layouts plus a malformed stream; independent predicate: both layouts yield exactly the generated statements.",
+ 'C02': dict(text="Coq theorem C02_complete: for EVERY tree of the literal grammar (any nesting, trailing commas, one-tuples, parenthesised values, leading minus, runs of adjacent strings) in EVERY layout (any NL/COMMENT tokens after any token inside brackets) the model parser returns exactly Python's value and consumes exactly the literal; plus the one-tuple rule. Model tied to /repo by generated literal texts in random layouts and near-miss texts (model evaluated inside coqc on the real tokenizer's tokens), with the independent oracle ast.literal_eval on the whole text (accepted => equal value of the same type; grammar text => accepted).",
+   note=NOTE + " CPython's tokenizer and ast.literal_eval on one atom are not modelled (observed / oracle table); soundness (rejection of every non-literal) is checked by the correspondence and the near-miss stream, not proved.", design="5/C02"),
+ 'C03': dict(category='translation_validation', text="Executable Gallina model of the statement parser (bindings, macro form, blocks, four import forms, includes, selector adjacency re-check) compared with the implementation on generated statement lists rendered in two independent layouts plus a malformed stream (incl. continuation-aligned scoped names); independent predicate: both layouts yield exactly the generated statements. Proved in Coq: accepted scoped names are spelled by adjacent tokens and match the pattern (never repaired), a detached separator is never accepted, key splitting inverts joining. The full statement round-trip over all layouts is not proved, hence translation validation.",
    note=NOTE + " CPython's tokenizer is not modelled.", design="5/C03"),
+ 'C16': dict(category='translation_validation', text="Executable Gallina model of the streaming statement consumer (parse_config, includes through readers/locations, try_with_location chain, provenance) compared with the implementation on generated configs with one injected fault (14 kinds, any include depth / block member); independent oracle: a second fresh gin given only the statements preceding the fault must end in the same store and provenance; error class and (file, line) chain checked against the generator's own line bookkeeping. One known finding (F11, block members before a syntactic fault) is recorded.",
+   note=NOTE + " Tokenizer, ast.literal_eval per atom and the file system are not modelled. No Coq theorem about the consumer fold is proved yet.", design="5/C16"),
  'C08': dict(text="Coq proof (for every history of set/pop/clear/copy and every query, over unbounded name sets) that the suffix-tree model refines a finite map, that matching = exact-match-else-all-suffix-matches, and that the reported minimal selector resolves back and no shorter suffix does; model tied to /repo by a differential run of generated histories plus an independent brute-force statement of the property evaluated on the implementation.",
    note=NOTE + " ASCII selectors only.", design="5/C08"),
  'C09': dict(text="Coq theorem C09_restored: every op of the Gin-machine language (config_scope blocks of any depth, raising bodies, scoped references, nested calls) leaves the scope stack exactly as found on both exits; composition and invalid-scope theorems. Thread half: per-thread-stack model compared with 2-4 real threads stepped by a central scheduler on generated (thorough: exhaustively enumerated) schedules, with an independent 'what the thread sees alone' predicate.",
